@@ -17,7 +17,7 @@ pub struct World {
 
 /// Writes the configuration and points SNELDB_CONFIG at it. Must run before anything touches
 /// `CONFIG`. `bypass` selects `auth.bypass_auth`; `expiry` the session token lifetime.
-pub fn write_config(out: &Path, tag: &str, bypass: bool, expiry: u64) -> PathBuf {
+pub fn write_config(out: &Path, tag: &str, bypass: bool, expiry: u64, rate_limit: bool) -> PathBuf {
     std::fs::create_dir_all(out).unwrap();
     let root = std::fs::canonicalize(out).unwrap().join(format!("c13-{tag}-{}", std::process::id()));
     let _ = std::fs::remove_dir_all(&root);
@@ -69,7 +69,8 @@ allow_unauthenticated = false
 
 [auth]
 bypass_auth = {bypass}
-rate_limit_enabled = false
+rate_limit_enabled = {rate_limit}
+rate_limit_per_second = 1
 session_token_expiry_seconds = {expiry}
 
 [logging]
